@@ -4,6 +4,7 @@ pub mod reader_hist;
 pub mod sink;
 pub mod source;
 pub mod trace;
+pub mod writer_hist;
 
 pub use serde_json::{json, Value};
 
